@@ -242,7 +242,7 @@ def identity_un(S, cfg, ty, ovr, depth=0):
         return True
     k = ty[0]
     if k == "lit":
-        return True
+        return not any(v[0] == "e" for v in ty[1])  # (a literal containing enum members: `self.unstructure`)
     if k in ("final", "alias"):
         return identity_un(S, cfg, ty[1], ovr, depth)
     if k in ("new", "ann"):
@@ -295,6 +295,8 @@ def allowed_un(S, cfg, ty, o, ovr, extras):
     out = set()
     if k == "enum":
         return out
+    if k == "lit":
+        return allowed_un_any(S, cfg, o, ovr, extras)   # (containing enum members: encoded by run-time class)
     sub = (lambda t, e: allowed_un(S, cfg, t, e, ovr, extras)) if cfg["gen"] else (
         lambda t, e: allowed_un_any(S, cfg, e, ovr, extras))
     if k in ("list", "seq", "mseq", "tup*", "deque", "set", "mset", "fset"):
@@ -717,7 +719,7 @@ def sanitize(w):
 
 
 def my_worlds(chk, drv, n_worlds):
-    G = gen.Gen(chk.rng, unions=True, nt=True)
+    G = gen.Gen(chk.rng, unions=True, nt=True, enum_lits=True)
     made = attempts = 0
     while made < n_worlds and attempts < n_worlds * 3:
         attempts += 1
@@ -736,6 +738,8 @@ def stream_plain(chk, drv, stats, corr_fail, n_worlds):
         cache = {}
         for ty, x, _xv in streams.typed_values(chk, G, S, w, n_types=3, n_values=1, any_stable=False):
             chk.note("ty:" + (ty if isinstance(ty, str) else ty[0]))
+            if gen.has_enum_lit(w, ty):
+                chk.note("literal-with-enum-members-reachable")
             for cfg in CFGS:
                 if not gen.supported(cfg, w, ty) or not cfg_ok(cfg, w):
                     chk.note("unsupported-by-converter-class")
